@@ -80,3 +80,10 @@ Definition rl_zone_name (polns pol vsns vs : string) : string := join us "pol" [
 Definition match_name (upstream : string) : string := upstream ++ "_match".
 Definition ingress_rl_zone_name (ns name : string) : string := ns ++ "/" ++ name.
 Definition login_location_name (ns name : string) : string := "@login_url_" ++ ns ++ "-" ++ name.
+
+(* "append unless already present": the shape of the repairs F32 (jwtRedirectLocationExists: the JWT
+   redirect location of a minion is added to the server once, not once per path) and F12 (a
+   VirtualServerRoute is attached to a VirtualServer once, however many routes reference it) *)
+Definition add_once (x : string) (l : list string) : list string :=
+  if existsb (String.eqb x) l then l else (l ++ [x])%list.
+Definition collect_once (xs : list string) : list string := fold_left (fun acc x => add_once x acc) xs [].
